@@ -273,6 +273,21 @@ def check_call_failures(problems):
                                         f"as job {be._tracked_jobs['a']!r}")
                 except Exception as e:
                     problems.append(f"failures: {name}: {cmd[name]} failed ({kind}): {type(e).__name__}: {e} instead of BackendError")
+                # a failing STATUS query must not be mistaken for "the scheduler has forgotten the job"
+                stat = {"slurm": "squeue", "sge": "qstat", "lsf": "bjobs"}[name]
+                out2 = _truth_outputs({"77": "R"})
+                out2[stat] = {"__fail__": spec}
+                env.outputs(out2)
+                try:
+                    got = o.get_job_states(["77"])
+                    problems.append(f"failures: {name}: {stat} failed ({kind}) while job 77 is running, but get_job_states() "
+                                    f"returned {({k: v.name for k, v in got.items()})} instead of raising BackendError (the "
+                                    f"job would be taken for finished and its target submitted again)")
+                except BackendError:
+                    pass
+                except Exception as e:
+                    problems.append(f"failures: {name}: {stat} failed ({kind}): {type(e).__name__}: {e} instead of BackendError")
+                env.outputs(out)
                 try:
                     o.cancel_job("77")
                     problems.append(f"failures: {name}: {kill[name]} failed ({kind}) but cancel_job() returned normally")
